@@ -3,7 +3,7 @@ CONSTANTS
   Fuel = 2
   MaxStmt = 1
   MaxTok = 60
-  Imports = TRUE
+  Imports = FALSE
 INVARIANT TypeOK
 INVARIANT RangesOK
 INVARIANT ProdsOK
